@@ -937,7 +937,7 @@ class PolarsModel(data_algebra.data_model.DataModel):
             reversed_cols = [
                 True if ci in set(op.reverse) else False for ci in op.order_by
             ]
-            res = res.sort(by=op.order_by, descending=reversed_cols)
+            res = res.sort(by=op.order_by, descending=reversed_cols, nulls_last=True)
         res = res.with_columns(produced_columns)
         if len(temp_v_columns) > 0:
             res = res.select(op.columns_produced())
@@ -1125,7 +1125,7 @@ class PolarsModel(data_algebra.data_model.DataModel):
         reversed_cols = [
             True if ci in set(op.reverse) else False for ci in op.order_columns
         ]
-        res = res.sort(by=op.order_columns, descending=reversed_cols)
+        res = res.sort(by=op.order_columns, descending=reversed_cols, nulls_last=True)
         if op.limit is not None:
             res = res.head(op.limit)
         return res
